@@ -260,8 +260,6 @@ def check_thick(rep, sc, threads, rng, idx, tier):
     import osyris
     from .units_map import sparse_of_pint
     nd = sc["m"]["nd"]
-    if nd != 3:
-        return
     den = sc["basis"]["den"]
     lbox = [1.0, 4.0][idx % 2]
     f = lbox / 32.0
@@ -272,6 +270,13 @@ def check_thick(rep, sc, threads, rng, idx, tier):
     scale = {"cm": 1.0, "m": 0.01, "mm": 10.0}[unit]
     nx, ny, nz = sc["nx"], sc["ny"], sc["nz"]
     dxl, dyl, dzl = 2 * nx * sc["s"], 2 * ny * sc["sy"], 2 * nz * sc["sz"]
+    tab = sc["table"]
+    if nd == 2 and idx % 2 == 0:
+        # in a 2-D mesh the samples of a column are one point whatever the depth: also for slabs much thicker than the
+        # cells, sampled at more depths (the table of the first depth holds for all of them)
+        dzl *= 16
+        nz *= 3
+        tab = [tab[0]] * nz
     U = osyris.units
     res = {"x": nx, "y": ny, "z": nz}
     pix = 0.5 * (dxl / nx + dyl / ny)
@@ -280,11 +285,12 @@ def check_thick(rep, sc, threads, rng, idx, tier):
         del res["z"]            # the default depth resolution must be the nearest integer to dz / pixel size
     op = OPS[idx % len(OPS)]
     op2 = OPS[(idx // 3 + 3) % len(OPS)]
-    kw = {"dx": dxl * f * scale * U(unit), "dy": dyl * f * scale * U(unit), "dz": dzl * f * U("cm"), "origin": osyris.Vector(*[sc["origin"][d] * f for d in range(3)], unit="cm"),
-          "resolution": res, "direction": direction_of(sc), "operation": op}
+    kw = {"dx": dxl * f * scale * U(unit), "dy": dyl * f * scale * U(unit), "dz": dzl * f * U("cm"), "origin": osyris.Vector(*[sc["origin"][d] * f for d in range(nd)], unit="cm"),
+          "resolution": res, "operation": op}
+    if nd == 3:
+        kw["direction"] = direction_of(sc)          # (a 2-D mesh has one orientation: every depth sample of a pixel is the same point)
     op3 = OPS[(idx // 5 + 1) % len(OPS)]
     layers = [dg.layer("velocity", mode="vec", operation=op3), dg.layer("density"), dg.layer("density", operation=op2)]
-    tab = sc["table"]
     ids = np.array([[[tab[k][j][i][0] for i in range(nx)] for j in range(ny)] for k in range(nz)])
     vals = np.where(ids > 0, ids * 1.5, np.nan)
     step = dzl * f / nz
